@@ -327,6 +327,77 @@ class TensorToFunsor(Contract):
 
 
 @register
+class TensorToFunsorInferredOutput(Contract):
+    """tensor_to_funsor(x, None, dim_to_name) with a non-empty dim_to_name -- the event shape is inferred: the LEFTMOST (most
+    negative) key refers to the leftmost dim of x, i.e. the batch rank is B = min(-min(keys), x.ndim), key k names dim B + k,
+    the output is Reals[x.shape[B:]] -- and then as with an explicit output: named dims of size != 1 become inputs in
+    left-to-right order, unnamed dims left of the event shape must have size 1 (else the reshape raises), keys below -B are
+    never consulted, and result.data[named idx ++ event idx] == x[that index].  structure bound: x.ndim <= 3, keys among
+    -1..-3 (thorough: ndim <= 4, keys -1..-4), dict listed ascending and descending."""
+
+    props = ("C19",)
+    file = "funsor/tensor.py"
+    qualname = "tensor_to_funsor"
+    max_paths = 4000
+    mutants = (
+        ("batch rank taken from the rightmost key (seeded C19_to_funsor_event_shape_max)", "batch_ndims = min(-min(dim_to_name.keys()), len(x.shape))", "batch_ndims = min(-max(dim_to_name.keys()), len(x.shape))"),
+        ("event shape starts one dim early", "output = Reals[x.shape[batch_ndims:]]", "output = Reals[x.shape[max(batch_ndims - 1, 0):]]"),
+    )
+
+    def structures(self, tier):
+        nmax = 3 if tier == "quick" else 4
+        for n in range(1, nmax + 1):
+            for r in range(1, nmax + 1):
+                for keys in itertools.combinations(range(-nmax, 0), r):
+                    yield "ndim=%d,keys=%s" % (n, list(keys)), (n, keys, "asc")
+                    if r >= 2:
+                        yield "ndim=%d,keys=%s,listed-descending" % (n, list(keys)), (n, keys, "desc")
+
+    def build(self, p, st):
+        n, keys, order = st
+        shape = tuple(sizes(p, n, "s"))
+        x = fresh_array(p, "x", shape)
+        ks = list(keys) if order == "asc" else list(reversed(keys))
+        d2n = OrderedDict((k, "n%d" % (-k)) for k in ks)
+        return Ctx(args=(x, None, d2n), namespace=dict(TENSOR_NS, min=min, max=max, len=len, all=core.sall, isinstance=core.sisinstance, int=int, str=str), x=x, shape=shape, st=st, p=p)
+
+    def layout(self, ctx):
+        n, keys, order = ctx.st
+        B = min(-min(keys), n)
+        named = {B + k: "n%d" % (-k) for k in keys if B + k >= 0}
+        return B, named
+
+    def may_raise(self, ctx, etype):
+        B, named = self.layout(ctx)
+        return Or(*[ctx.shape[d] != 1 for d in range(B) if d not in named])
+
+    def ensures(self, ctx, result):
+        n, keys, order = ctx.st
+        B, named = self.layout(ctx)
+        if not isinstance(result, TensorM):
+            return [("returns_tensor", False)]
+        cl = [("unnamed_batch_dims_are_units", And(*[ctx.shape[d] == 1 for d in range(B) if d not in named]))]
+        names = list(result.inputs)
+        exp_order = [named[d] for d in sorted(named)]
+        pos = {v: d for d, v in named.items()}
+        is_sub = [m for m in exp_order if m in names] == names
+        cl.append(("inputs_are_exactly_the_non_unit_named_dims_in_order", is_sub and And(*[(ctx.shape[pos[m]] != 1) if m in names else (ctx.shape[pos[m]] == 1) for m in exp_order])))
+        cl.append(("input_sizes", And(*[deep_eq(result.inputs[m].dtype, ctx.shape[pos[m]]) for m in names])))
+        cl.append(("output_is_the_shape_right_of_the_leftmost_key", deep_eq(result.output, MDom("real", tuple(ctx.shape[B:])))))
+        shape = tuple(ctx.shape[pos[m]] for m in names) + tuple(ctx.shape[B:])
+        if len(result.data.shape) == len(shape):
+            idx = fresh_index(ctx.p, shape)
+            full = [0] * B
+            for k, m in enumerate(names):
+                full[pos[m]] = idx[k]
+            src = tuple(full) + tuple(idx[len(names):])
+            cl.append(("every_value_stays_with_its_name", Implies(in_range(idx, shape), result.data.get(idx) == ctx.x.get(src))))
+        else:
+            cl.append(("every_value_stays_with_its_name", False))
+        return cl
+
+
+@register
 class TensorToData(Contract):
     """tensor_to_data(x, name_to_dim): each input lands at its name_to_dim position (negative, counted from the event
     boundary), size 1 elsewhere, batch rank == -min(dims); for every index  result[..] == x.data[named idx ++ event idx].
